@@ -190,7 +190,7 @@ func runC01(w *World, c *Check) {
 				if len(x.Ret.Results) != 1 {
 					continue
 				}
-				v := fa.R.R(x.Ret.Results[0])
+				v := fa.R.R(RetResults(x.Ret)[0])
 				var need Edge
 				switch v {
 				case "7":
